@@ -200,6 +200,15 @@ def default_inputs(run, rng, focus):
         for a, b in XMLID_STREAM:
             for o in ({}, {'fast_match': True}, {'best_match': True}):
                 inputs.append((a, b, o))
+    # unique attribute values that differ only in padding / inner white space / NBSP / case: different values
+    if focus == "C07":
+        for a, b in (('<r><p id="a1">Jane Doe text</p><k/></r>', '<r><p id="a1 ">Jane Doe text</p><k/></r>'),
+                     ('<r><p id="Jane Doe">same</p></r>', '<r><q/><p id="Jane  Doe">same</p></r>'),
+                     ('<r><p id="x\u00a0y">same</p><p id="x y">same</p></r>', '<r><p id="x y">same</p><p id="x\u00a0y">same</p></r>'),
+                     ('<r><item name="A">t</item><item name="a">t</item></r>', '<r><item name="a">t</item><item name="A">t</item></r>')):
+            for o in ({'uniqueattrs': ['id', 'name']}, {'uniqueattrs': [('p', 'id'), ('item', 'name')], 'fast_match': True},
+                      {'uniqueattrs': ['id', 'name'], 'best_match': True}):
+                inputs.append((a, b, o))
     # a unique attribute that is present with the EMPTY value on one side and absent (or non-empty) on the other
     if focus == "C07":
         for a, b in (('<r><a i="">same text</a><k/></r>', '<r><a>same text</a><k/></r>'),
